@@ -108,13 +108,13 @@ func (tree *Tree[T]) Name() string { return tree.name }
 //
 // methods 可以为空，表示采用 [AnyMethods] 中的值。
 func (tree *Tree[T]) Add(pattern string, h T, ms []types.Middleware[T], methods ...string) error {
-	if err := tree.checkAmbiguous(pattern); err != nil {
-		return err
-	}
-
 	if tree.locker != nil {
 		tree.locker.Lock()
 		defer tree.locker.Unlock()
+	}
+
+	if err := tree.checkAmbiguous(pattern); err != nil { // 需要读取整个路由树，必须在加锁之后。
+		return err
 	}
 
 	n, err := tree.getNode(pattern)
@@ -221,10 +221,6 @@ func (tree *Tree[T]) getNode(pattern string) (*node[T], error) {
 
 // 此方法主要用于将 locker 的使用范围减至最小。
 func (tree *Tree[T]) match(ctx *types.Context) *node[T] {
-	if tree.locker != nil {
-		tree.locker.RLock()
-		defer tree.locker.RUnlock()
-	}
 	return tree.node.matchChildren(ctx)
 }
 
@@ -236,6 +232,12 @@ func (tree *Tree[T]) Handler(ctx *types.Context, method string) (types.Node, T, 
 
 	if tree.hasTrace && method == http.MethodTrace {
 		return tree.node, tree.trace, true
+	}
+
+	// 查找到的节点的 handlers 同样可能被 Add 和 Remove 修改，需要一并置于锁的范围之内。
+	if tree.locker != nil {
+		tree.locker.RLock()
+		defer tree.locker.RUnlock()
 	}
 
 	var node *node[T]
@@ -283,6 +285,11 @@ func (tree *Tree[T]) Find(pattern string) *node[T] { return tree.node.find(patte
 //
 // NOTE: 会检测 pattern 是否存在于 tree 中。
 func (tree *Tree[T]) URL(buf *errwrap.StringBuilder, pattern string, ps map[string]string) error {
+	if tree.locker != nil {
+		tree.locker.RLock()
+		defer tree.locker.RUnlock()
+	}
+
 	n := tree.Find(pattern)
 	if n == nil {
 		return fmt.Errorf("%s 并不是一条有效的注册路由项", pattern)
